@@ -82,6 +82,12 @@ pub(crate) fn remove_syntactic_sugar(
         if body.contains_anonymous_component(Some(reports)) {
             continue;
         }
+        // An assignment where the left-hand side is not a variable (e.g. `a + 1 = 3`)
+        // is parsed as a multi-substitution, which cannot be lifted to IR.
+        if let Err(report) = remove_tuples_from_statement(body.clone()) {
+            reports.push(*report);
+            continue;
+        }
         new_functions.insert(name.clone(), function.clone());
     }
     (new_templates, new_functions)
